@@ -85,6 +85,20 @@ def generate(quick):
                 if "&" not in a and "const" not in a:
                     t.add("static_assert(std::is_assignable_v<%s&, %s %s> == std::is_assignable_v<%s&, %s %s>);" % (e1, e2, q, s1, s2, q),
                           "is_assignable<%s<%s,int>&, %s<%s,int> %s>" % (tmpl, a, tmpl, c, q))
+    # the bodies of the converting members are instantiated (traits only see the declarations): copying from a pair of
+    # references must copy, not move - a copy-only element type makes the difference a compile error
+    inst = 0
+    for tgt, src in (("m::CopyOnly", "m::CopyOnly&"), ("m::CopyOnly", "m::CopyOnly const&"), ("long", "int&"), ("m::MoveOnly", "m::MoveOnly")):
+        for q in ("&&", "const&") if tgt != "m::MoveOnly" else ("&&",):
+            for ns in ("etl", "std"):
+                t = tu()
+                inst += 1
+                t.add("inline void c20_inst_%d(%s::pair<%s, int> %s s) { %s::pair<%s, int> d{static_cast<%s::pair<%s, int> %s>(s)}; (void)d; }" % (
+                    inst, ns, src, q, ns, tgt, ns, src, q), "%s::pair<%s,int> constructed from %s::pair<%s,int> %s instantiates" % (ns, tgt, ns, src, q))
+                if tgt != "m::MoveOnly" or q == "&&":
+                    inst += 1
+                    t.add("inline void c20_inst_%d(%s::pair<%s, int>& d, %s::pair<%s, int> %s s) { d = static_cast<%s::pair<%s, int> %s>(s); }" % (
+                        inst, ns, tgt, ns, src, q, ns, src, q), "%s::pair<%s,int> assigned from %s::pair<%s,int> %s instantiates" % (ns, tgt, ns, src, q))
     t = tus[0]
     for args in ("int, double", "int&, m::MoveOnly", "char const(&)[3], int", "std::reference_wrapper<int>, int", "etl::reference_wrapper<int>, int const&"):
         ea = args
